@@ -75,6 +75,14 @@ def run(ck):
             others.append(gen.overhang(rng, gen.mutate(rng, rng.choice(others + [root]), alpha, 12, 8), alpha, 6))
         dup = gen.mutate(rng, root, alpha, 10, 6) if rng.chance(2, 3) else root
         if kind == 'protein':
+            if rng.chance(1, 2):     # ambiguity letters (X, B, Z, U): code 12 of the reduced alphabet must match itself in the distance kernel
+                def sprinkle(x):
+                    x = list(x)
+                    for _ in range(rng.range(1, 4)):
+                        x[rng.below(len(x))] = rng.choice('XXXBZU')
+                    return ''.join(x)
+                dup = sprinkle(dup); others = [sprinkle(o) if rng.chance(1, 2) else o for o in others]
+                ck.count('protein duplicates with ambiguity letters')
             others = [s + 'WKW' for s in others]; dup = dup + 'WKW'
         mult = rng.range(2, min(10, 99 - n_other))
         seqs = others + [dup] * mult
